@@ -1294,8 +1294,11 @@ class Compiler:
         fallback_body = self.visit(node.fallback)
         self._leave_assignment((node.name, ))
 
+        # The token is unset if the failure comes out of an inline macro
+        # (which reports its own position); the location is then unknown.
         error_assignment = template(
-            "econtext[key] = cls(__exc, __tokens[__token][1:3])\n"
+            "econtext[key] = cls(__exc, __tokens[__token][1:3] "
+            "if __token is not None else (None, None))\n"
             "if handler is not None: handler(__exc)",
             cls=ErrorInfo,
             handler=load("on_error_handler"),
